@@ -317,7 +317,7 @@ func c13StateProbe(history [][]string, password, overTLS bool) (st c13St, clause
 }
 
 func c13State(c *fw.Ctx) {
-	events := [][]string{{"SELECT", "0"}, {"SELECT", "1"}, {"SELECT", "7"}, {"SELECT", "abc"}, {"GET", "k"}, {"AUTH", c13Pass}, {"AUTH", "wrong"}, {"RECONNECT"}}
+	events := [][]string{{"SELECT", "0"}, {"SELECT", "1"}, {"SELECT", "7"}, {"SELECT", "abc"}, {"SELECT", "2147483648"}, {"SELECT", "4294967297"}, {"SELECT", "9223372036854775807"}, {"GET", "k"}, {"AUTH", c13Pass}, {"AUTH", "wrong"}, {"RECONNECT"}}
 	for _, variant := range []int{0, 1, 2, 3} {
 		password, overTLS := variant&1 == 1, variant&2 == 2
 		if !c.Mine() {
@@ -488,7 +488,7 @@ func init() {
 	fw.Register(&fw.Prop{
 		ID:          "C13",
 		Level:       "model_checking",
-		Rule:        "(STATE) breadth-first closure of one connection's state machine over the events {SELECT 0/1/7, SELECT abc, GET, AUTH password, AUTH wrong, disconnect+reconnect}, with and without a configured password, over a plain connection and over one that arrived through the TLS port, canonical state (database, authorized) observed inside the handler through a probe; (SCHED) two connections through the real Start/accept loop/connection goroutines, each running one of 8 scripts (SELECT/SET/GET, AUTH then SELECT, failing SELECT, failed AUTH after a good one, reconnect) x with/without password = 128 scenarios, every schedule within deviation bound 2 (thorough: three connections, and bound 3); inside every handler call the issuing client's own model (database, authorization, connection object identity, per-connection user data in the sync.Map) is compared with what the handler sees.",
+		Rule:        "(STATE) breadth-first closure of one connection's state machine over the events {SELECT 0/1/7, SELECT 2^31 / 2^32+1 / 2^63-1, SELECT abc, GET, AUTH password, AUTH wrong, disconnect+reconnect}, with and without a configured password, over a plain connection and over one that arrived through the TLS port, canonical state (database, authorized) observed inside the handler through a probe; (SCHED) two connections through the real Start/accept loop/connection goroutines, each running one of 8 scripts (SELECT/SET/GET, AUTH then SELECT, failing SELECT, failed AUTH after a good one, reconnect) x with/without password = 128 scenarios, every schedule within deviation bound 2 (thorough: three connections, and bound 3); inside every handler call the issuing client's own model (database, authorization, connection object identity, per-connection user data in the sync.Map) is compared with what the handler sees.",
 		Assumptions: []string{"sequentially consistent interleavings; deviation (delay) bounded", "client counts above 3 are not explored"},
 		Run:         c13Run,
 		Replay:      c13Replay,
